@@ -41,26 +41,32 @@ def confirm(d, dest_rel=None):
         cmd = m.get("demo_cmd", "")
         cmd = re.sub(r"export [^;]*;\s*", "", cmd)
         cmd = re.sub(r"^cd \S+\s*&&\s*", "", cmd)
+        cmd = re.sub(r"\s+\(.*$", "", cmd).strip()  # drop trailing remarks
         files = demo_files(d)
         mapping = m.get("demo_files") or {}
-        for f in files:
-            dest = dest_rel
-            if dest is None:
-                v = mapping.get(f, "") if isinstance(mapping, dict) else ""
-                mm = re.search(r"(plugin/\w+|codec|socket|utils|xfer/\w+|proto/\w+|mixer/[\w/]+)", v)
-                dest = mm.group(1) if mm else None
-            if dest is None:
-                mm = re.search(r"\./((?:plugin|codec|socket|utils|xfer|proto|mixer)[\w/]*)/?\s*$", cmd.strip())
-                dest = mm.group(1) if mm and "e2e" not in f else "."
-            shutil.copy(os.path.join(d, f), os.path.join(wt, dest, f))
-        rc0, out0 = sh(cmd, wt, shell=True)
-        rca, outa = sh(["git", "apply", os.path.join(os.path.abspath(d), "patch.diff")], wt)
+        patch = os.path.join(os.path.abspath(d), "patch.diff")
+        rca, outa = sh(["git", "apply", patch], wt)
         if rca != 0:
             res = {"applies_to_head": False, "apply_output": outa[-500:]}
         else:
+            # 1. the patched tree builds and passes the baseline suite (demonstration files not yet present)
             rcb, outb = sh(["go", "build", "-tags", "verif", ".", "./codec/", "./socket/", "./utils/", "./xfer/...", "./proto/...", "./plugin/...", "./mixer/websocket/..."], wt)
-            rc1, out1 = sh(cmd, wt, shell=True)
             rct, outt = sh(BASELINE, wt)
+            # 2. the demonstration fails with the change ...
+            for f in files:
+                dest = dest_rel
+                if dest is None:
+                    v = mapping.get(f, "") if isinstance(mapping, dict) else ""
+                    mm = re.search(r"(plugin/\w+|codec|socket|utils|xfer/\w+|proto/\w+|mixer/[\w/]+)", v)
+                    dest = mm.group(1) if mm else None
+                if dest is None:
+                    mm = re.search(r"\./((?:plugin|codec|socket|utils|xfer|proto|mixer)[\w/]*)/?\s*$", cmd)
+                    dest = mm.group(1) if mm and "e2e" not in f else "."
+                shutil.copy(os.path.join(d, f), os.path.join(wt, dest, f))
+            rc1, out1 = sh(cmd, wt, shell=True)
+            # 3. ... and passes without it
+            sh(["git", "apply", "-R", patch], wt)
+            rc0, out0 = sh(cmd, wt, shell=True)
             res = {"applies_to_head": True, "repo_head": sh(["git", "-C", "/repo", "rev-parse", "--short", "HEAD"], "/")[1].strip(),
                    "builds_with_change": rcb == 0, "demo_cmd": cmd, "demo_without_change_rc": rc0, "demo_with_change_rc": rc1,
                    "demo_with_change_tail": out1[-600:], "baseline_with_change_rc": rct, "baseline_tail": outt[-300:],
